@@ -223,7 +223,9 @@ def _accepted_value_problem(wl, decname, dec, result, kw):
     except Exception as ex:
         return 'reencoding-not-decodable', '%s: %s: %s' % (decname, type(ex).__name__, str(ex)[:100])
     if rest or U.absval_canon(back) != U.absval_canon(result):
-        return 'reencoding-decodes-to-other-value', '%s: %s' % (decname, e.hex()[:80])
+        drift = not rest and U.absval_canon_coarse(back) == U.absval_canon_coarse(result)
+        return 'reencoding-decodes-to-other-value', '%s: %s%s' % (decname, e.hex()[:80],
+                                                                 ' [only REAL digits beyond the 12th differ]' if drift else '')
     return None, None
 
 
